@@ -67,6 +67,4 @@ Fixpoint node_closed (n : tnode) : bool :=
 
 Definition template_control_closed (t : list tnode) : bool := forallb node_closed t.
 
-Theorem moq_template_control_closed : template_control_closed moq_template = true.
-Proof. vm_compute. reflexivity. Qed.
 
